@@ -8,7 +8,7 @@ from bandlib import *
 PID = "C04"
 IMPORTS = "From OV Require Import Model.Vector Model.Matrix Model.Banded."
 MODEL_VO = ["Model/Banded.vo"]
-EXHAUSTIVE = True
+EXHAUSTIVE = False      # exhaustive in (n,m1,m2) (thorough: all 385 triples), sampled in the entry values
 RULE = ("band.hist cases (initial compact storage with every padding slot set to a loud value, then operations; the state is dumped where the "
         "history asks for it): (a) every (n,m1,m2), 0<=m1,m2<n, n=1..6 quick / 1..10 thorough (all 385 triples; quick adds a seeded sample of 36 "
         "triples with n=7..10) x 7 rational sign patterns (mixed, negative dominant diagonal, zero diagonal over nonzero sub-diagonal, tiny positive "
